@@ -2,6 +2,16 @@
 import core
 
 
+def _dejson(o):
+    if isinstance(o, dict):
+        if '__bytes__' in o and len(o) == 1:
+            return bytes.fromhex(o['__bytes__'])
+        return {k: _dejson(v) for k, v in o.items()}
+    if isinstance(o, list):
+        return [_dejson(x) for x in o]
+    return o
+
+
 class PropBase:
     id = None
     lean_modules = []
@@ -21,7 +31,19 @@ class PropBase:
         return max(1, int(n * scale))
 
     def corpus(self):
-        return []
+        """minimised past failures and the witnesses of the repaired defects: corpus/<id>/*.json (replay format); run first"""
+        import os, json, glob
+        d = os.path.join(os.path.dirname(os.path.dirname(os.path.dirname(os.path.abspath(__file__)))), 'corpus', self.id or '')
+        out = []
+        for f in sorted(glob.glob(os.path.join(d, '*.json'))):
+            try:
+                obj = _dejson(json.load(open(f)))
+            except Exception:
+                continue
+            sc = obj.get('scenario')
+            if sc and 'ops' in sc:
+                out.append(sc)
+        return out
 
     def generate(self, rng, tier, shard, nshards, scale):
         if shard == 0:
